@@ -8,8 +8,8 @@ per-flag vocabulary (`C05X_tree_vocab`).  Here the rest of C05 is derived:
 1. **the tree is well formed** — `C05X_tree_wf`: for every set of extensions without attr_list and without
    admonition, the tree of `treeX` is `Ser.WFTree`, the domain of the serialise/read round trip C14: every tag and
    attribute name is a name, no element carries an attribute name twice, and the void elements (`hr`, `br`, `img`)
-   have neither text nor children.  `C05X_root_div`: its root is the wrapper `div` without attributes (the hypothesis
-   `rootDiv u` of `Props/C14X.lean`, "tested, not proved" in `Props/C02X.lean`).
+   have neither text nor children.  `C05X_root_div`: its root is the wrapper `div` without attributes — attr_list on
+   or off (the hypothesis `rootDiv u` of `Props/C14X.lean`, "tested, not proved" in `Props/C02X.lean`).
    With attr_list the same holds exactly when every attribute name of the tree is a name
    (`C05X_tree_wf_attr_list`; `C05X_attr_list_not_names` of `Props/C05X.lean` is the excluded point).
    WITH ADMONITION THE STATEMENT IS FALSE — finding F-C05X-1, `C05X_admonition_fills_hr`: for the `<`-free source
@@ -23,7 +23,9 @@ per-flag vocabulary (`C05X_tree_vocab`).  Here the rest of C05 is derived:
    reader and every element read back has a tag of `tagOkX x` and attribute names of `keyOkX x` (`RXL`), under ONE
    residual, decidable hypothesis — the serialised tree does not contain the ampersand substitute `STX amp ETX`
    (as `C05_partial2` for the core; the core proof of it, `C05_full`, rests on 2800 lines about `Inline.run` that are not
-   redone for the pattern table of `runX`); `C05X_upto_ampsub` is the statement without any hypothesis:
+   redone for the pattern table of `runX`); `C05X_partial_general` covers attr_list (when every attribute name is a
+   name) and fenced_code (when the document has no fenced block); `C05X_upto_ampsub` is the statement without any
+   hypothesis:
    the output is `AndSubstitutePostprocessor` + `strip` of such a fragment.  The footnote postprocessor
    (`&#8617;`, `&#160;`) and the raw-HTML restore of the entity references commute with the serializer
    (`C05X_pass_commutes`).
@@ -35,7 +37,7 @@ per-flag vocabulary (`C05X_tree_vocab`).  Here the rest of C05 is derived:
 
 Only property statements live here; proofs in `MdVerif/Lemmas/VocabXWF*.lean`.  Core Lean only.
 -/
-import MdVerif.Lemmas.VocabXWFPipe3
+import MdVerif.Lemmas.VocabXWFPipe4
 import MdVerif.Lemmas.VocabXWFConv
 import MdVerif.Props.C14X
 
@@ -89,19 +91,26 @@ theorem C05X_tree_distinct_void_node {n : Node} (h : WF n) :
   intro t ht he
   exact h.w.2 (by rw [ht]; exact he)
 
-/-- **The root is the wrapper `div`**, without attributes when attr_list is off — for every flag set without
-    admonition: every stage rebuilds the root with its tag and attributes (the block parser works INTO the `div` it
-    is given, the inline stage and the tree processors replace children only; `toc` sets an `id` on headings only). -/
+/-- **The root is the wrapper `div` without attributes** — for every flag set without admonition, attr_list
+    included: every stage rebuilds the root with its tag and attributes (the block parser works INTO the `div` it is
+    given, the inline stage and the tree processors replace children only; `toc` sets an `id` on headings only), and
+    `AttrListTreeprocessor`, which visits the root too, finds no attribute list there: after prettify the tail of the
+    root's last child, the root's text and the root's tail are `"\n"` or empty, because the block parser leaves the
+    top-level children without tails and the root without text. -/
 theorem C05X_root_div (x : Exts) (hadm : x.admonition = false) (cfg : Pipeline.Cfg)
     (src : Str) (u : Node) (html : List Str) (h : treeX x cfg src = .ok u html) :
-    u.tag = .name "div".toList ∧ (x.attrList = false → u.attrs = []) :=
-  (VocabXWF.treeX_WF x hadm cfg src u html h).2
+    u.tag = .name "div".toList ∧ u.attrs = [] :=
+  (VocabXWF.treeX_WF' x hadm cfg src u html h).2
 
 /-- the same as the hypothesis `rootDiv u` of `Props/C14X.lean` -/
-theorem C05X_rootDiv (x : Exts) (hal : x.attrList = false) (hadm : x.admonition = false) (cfg : Pipeline.Cfg)
+theorem C05X_rootDiv (x : Exts) (hadm : x.admonition = false) (cfg : Pipeline.Cfg)
     (src : Str) (u : Node) (html : List Str) (h : treeX x cfg src = .ok u html) : C14X.rootDiv u = true := by
   obtain ⟨h1, h2⟩ := C05X_root_div x hadm cfg src u html h
-  simp [C14X.rootDiv, h1, h2 hal]
+  simp [C14X.rootDiv, h1, h2]
+
+/-- attr_list on: an attribute list at the end of the document belongs to the last paragraph, not to the root -/
+example : (match treeX { attrList := true } {} "para\n\nlast\n{: #i .c }".toList with
+    | .ok u _ => C14X.rootDiv u | _ => false) = true := by decide +kernel
 
 /-- `C14X_doc_spelling_notoc` without its two tree hypotheses: html and xhtml documents differ only in spelling, for
     every flag set without attr_list, admonition and toc, any stash -/
@@ -110,7 +119,7 @@ theorem C05X_doc_spelling_notoc (x : Exts) (hal : x.attrList = false) (hadm : x.
     (htree : treeX x cfg src = .ok u html)
     (hh : convertX x { cfg with fmt := .html } src = .ok h)
     (hx : convertX x { cfg with fmt := .xhtml } src = .ok xo) : Respell h xo :=
-  PipelineX.C14X_doc_spelling_notoc x ht cfg src h xo u html htree (C05X_rootDiv x hal hadm cfg src u html htree)
+  PipelineX.C14X_doc_spelling_notoc x ht cfg src h xo u html htree (C05X_rootDiv x hadm cfg src u html htree)
     (C05X_tree_wf x hal hadm cfg src u html htree) hh hx
 
 /-- the hypotheses on concrete inputs: every extension but attr_list and admonition; tables, a definition list, a
@@ -193,8 +202,7 @@ theorem C05X_partial (x : Exts) (hal : x.attrList = false) (hadm : x.admonition 
   have _ := hlt
   refine VocabXOut.convertX_reads x hal hfc cfg src out ?_ hamp hc
   intro u html h
-  obtain ⟨h1, h2, h3⟩ := VocabXWF.treeX_WF x hadm cfg src u html h
-  exact ⟨h1, h2, h3 hal⟩
+  exact VocabXWF.treeX_WF' x hadm cfg src u html h
 
 /-- **C05 on the extension pipeline up to the ampersand substitute** — no hypothesis besides the flags: whatever
     `convertX` returns is `AndSubstitutePostprocessor` followed by `.strip()` applied to a string `X` that the strict
@@ -205,8 +213,35 @@ theorem C05X_upto_ampsub (x : Exts) (hal : x.attrList = false) (hadm : x.admonit
       RXL (tagOkX x) (keyOkX x) forest = true := by
   refine VocabXOut.convertX_shape x hal hfc cfg src out ?_ hc
   intro u html h
-  obtain ⟨h1, h2, h3⟩ := VocabXWF.treeX_WF x hadm cfg src u html h
-  exact ⟨h1, h2, h3 hal⟩
+  exact VocabXWF.treeX_WF' x hadm cfg src u html h
+
+/-- **the general form**: attr_list on or off, fenced_code on or off.  The two hypotheses that replace the flag
+    conditions are decidable on the model: `hst` — the preprocessors stored nothing (without fenced_code always; with
+    fenced_code: the document has no fenced block — the stash entries of fenced blocks are `<pre>` strings, not entity
+    references, and are not covered here); `hnames` — every attribute name of the tree is a name (without attr_list
+    always).  With attr_list the vocabulary `keyOkX x` holds every name of attr_list's key grammar. -/
+theorem C05X_partial_general (x : Exts) (hadm : x.admonition = false) (cfg : Pipeline.Cfg) (src out : Str)
+    (hlt : '<' ∉ src)
+    (hst : ∀ text stash, prepareX x cfg src = .ok (text, stash) → stash = [])
+    (hnames : ∀ u html, treeX x cfg src = .ok u html → NI keysNamed u)
+    (hamp : ∀ u html, treeX x cfg src = .ok u html → contains (inner cfg.fmt u) Post.ampSubstitute = false)
+    (hc : convertX x cfg src = .ok out) :
+    ∃ forest, readForest cfg.fmt out = some forest ∧ RXL (tagOkX x) (keyOkX x) forest = true := by
+  have _ := hlt
+  exact VocabXOut.convertX_reads_named x cfg src out hst hnames
+    (fun u html h => VocabXWF.treeX_WF' x hadm cfg src u html h) hamp hc
+
+/-- attr_list and fenced_code on, a document with attribute lists (ASCII names) and no fenced block: the hypotheses
+    and the conclusion, computed by the kernel on the model -/
+example :
+    let x : Exts := { attrList := true, fencedCode := true, tables := true }
+    let src : Str := "# T {: #top .c }\n\npara *e*{: k=\"v w\" } &amp;\n{: title='a\"b>c' }\n\n| a |\n|---|\n| b {: .d } |".toList
+    (match prepareX x {} src with | .ok (_, stash) => stash.isEmpty | _ => false) = true ∧
+    (match treeX x {} src with
+     | .ok u _ => allNodes keysNamed u && !contains (inner .xhtml u) Post.ampSubstitute | _ => false) = true ∧
+    (match convertX x {} src with
+     | .ok out => (readForest .xhtml out).map (RXL (tagOkX x) (keyOkX x)) | _ => none) = some true := by
+  refine ⟨by decide +kernel, by decide +kernel, by decide +kernel⟩
 
 /-- the core vocabulary is the instance without flags: `RXL (tagOkX {}) (keyOkX {})` is `RGoodList` plus the `div` -/
 example : RX (tagOkX {}) (keyOkX {}) (.elem "p".toList [("title".toList, [])] [.text []]) = true ∧
